@@ -253,3 +253,31 @@ func main() {
 }
 
 func thorough() bool { return tier == "thorough" }
+
+// replayField extracts a string field from the replay file written by ./check
+// (either at top level or inside "replay").
+func replayField(names ...string) string {
+	b, err := os.ReadFile(replay)
+	if err != nil {
+		return ""
+	}
+	var top map[string]any
+	if json.Unmarshal(b, &top) != nil {
+		return ""
+	}
+	look := func(m map[string]any) string {
+		for _, n := range names {
+			if v, ok := m[n].(string); ok {
+				return v
+			}
+		}
+		return ""
+	}
+	if v := look(top); v != "" {
+		return v
+	}
+	if inner, ok := top["replay"].(map[string]any); ok {
+		return look(inner)
+	}
+	return ""
+}
